@@ -28,6 +28,7 @@ type metaObs struct {
 	Flags     uint8
 	Fields    [][2]string
 	Truncated bool
+	Detail    string // Framer.ErrorDetail() right after this ReadFrame ("" = nil)
 }
 
 func (o metaObs) key() string { return fmt.Sprintf("%+v", o) }
@@ -73,6 +74,9 @@ func readMetaFork(input []byte, maxList uint32, n int) (out []metaObs) {
 	fr.MaxHeaderListSize = maxList
 	for i := 0; i < n; i++ {
 		o := projMetaFork(fr.ReadFrame())
+		if d := fr.ErrorDetail(); d != nil {
+			o.Detail = d.Error()
+		}
 		out = append(out, o)
 		if o.Err != "" && !strings.HasPrefix(o.Err, "stream:") { // a stream error leaves the connection in use
 			break
@@ -92,6 +96,9 @@ func readMetaRef(input []byte, maxList uint32, n int) (out []metaObs) {
 	fr.MaxHeaderListSize = maxList
 	for i := 0; i < n; i++ {
 		o := projMetaRef(fr.ReadFrame())
+		if d := fr.ErrorDetail(); d != nil {
+			o.Detail = d.Error()
+		}
 		out = append(out, o)
 		if o.Err != "" && !strings.HasPrefix(o.Err, "stream:") {
 			break
@@ -349,7 +356,9 @@ func runH2MetaSeq(r *hk.Run, rng *hk.Rand) {
 		var wire []byte
 		var blocks [][][2]string
 		var blockTorn []bool
-		var coqBlocks []string
+		var coqBlocks, evs []string
+		var evIsBlock []bool
+		_ = coqBlocks
 		modelOK := true
 		maxList := hk.Pick(rng, []uint32{0, 1 << 16, 1 << 16, 400, 200, 120, 90})
 		effMax := uint64(maxList)
@@ -398,6 +407,25 @@ func runH2MetaSeq(r *hk.Run, rng *hk.Rand) {
 			if !atB {
 				modelOK = false
 			}
+			evIsBlock = append(evIsBlock, true)
+			evs = append(evs, fmt.Sprintf("EvBlock %d %s %s %s", sid, hk.CoqBool(su), hk.CoqBool(torn), hk.CoqList(blockFrags(frags, perFrag))))
+			// a frame the frame parser itself refuses with a stream error - before checkFrameOrder is
+			// reached - right behind the block: whatever ErrorDetail said about the block is not about it
+			if rng.Chance(35) {
+				rsid := sid
+				if rng.Bool() {
+					rsid = sid + 2
+				}
+				if rng.Bool() {
+					wire = append(wire, rawFrame(4, 8, 0, rsid, []byte{0, 0, 0, 0})...) // WINDOW_UPDATE, increment 0
+				} else {
+					wire = append(wire, rawFrame(1, 1, 0x8|0x4, rsid, []byte{5})...) // HEADERS, padding beyond the payload
+				}
+				frames++
+				evIsBlock = append(evIsBlock, false)
+				evs = append(evs, fmt.Sprintf("EvRejected %d", rsid))
+				r.Count("h2.metaseq.rejected-frame")
+			}
 			for _, f := range fs {
 				if uint64(len(f[0])) > effMax || uint64(len(f[1])) > effMax {
 					modelOK = false
@@ -429,6 +457,14 @@ func runH2MetaSeq(r *hk.Run, rng *hk.Rand) {
 				continue
 			}
 			metas = append(metas, o)
+			if ei := len(metas) - 1; ei < len(evIsBlock) && !evIsBlock[ei] {
+				// a frame refused by the frame parser: ErrorDetail is about THIS ReadFrame ("reset after
+				// the next call to ReadFrame"), and the parser gives no detail for it
+				if o.Detail != "" {
+					r.Fail(hk.Failure{Sig: "h2:meta-seq:stale-error-detail", What: "ErrorDetail() after a frame the frame parser refused still carries the detail of an earlier frame's error", Input: desc, Got: fmt.Sprintf("event %d: %s detail %q", ei, o.Err, o.Detail)})
+				}
+				continue
+			}
 			if bi < len(blocks) && o.Err == "" && !o.Truncated && blockTorn[bi] {
 				r.Fail(hk.Failure{Sig: "h2:meta-seq:torn-block-delivered", What: "a header block that ends inside a field representation was delivered", Input: desc, Got: fmt.Sprintf("block %d: %q", bi, o.Fields)})
 			}
@@ -454,12 +490,28 @@ func runH2MetaSeq(r *hk.Run, rng *hk.Rand) {
 		if i%modelEvery == 0 && modelOK && complete {
 			var obs []string
 			for _, o := range metas {
-				obs = append(obs, o.coq())
+				obs = append(obs, hk.CoqPair(o.coq(), hk.CoqBool(o.Detail != "")))
 			}
-			c.Coq = fmt.Sprintf("H2MetaSeq2 %d %s %s", effMax, hk.CoqList(coqBlocks), hk.CoqList(obs))
+			c.Coq = fmt.Sprintf("H2MetaSeq3 %d %s %s", effMax, hk.CoqList(parenAll(evs)), hk.CoqList(obs))
 		}
 		r.Add(c, fmt.Sprint("h2ms|", maxList, "|", wire), true)
 	}
+}
+
+func parenAll(xs []string) []string {
+	out := make([]string, len(xs))
+	for i, x := range xs {
+		out[i] = "(" + x + ")"
+	}
+	return out
+}
+
+func blockFrags(frags [][]byte, perFrag [][][2]string) []string {
+	var xs []string
+	for j := range frags {
+		xs = append(xs, hk.CoqPair(fmt.Sprint(len(frags[j])), coqStrPairs(perFrag[j])))
+	}
+	return xs
 }
 
 // tornWire: the wire was cut short (the model sees whole header blocks only)
